@@ -1058,4 +1058,84 @@ theorem updAttr_spec {rb : RB} (wf : WF rb) (line col : Int) (hl0 : 0 ≤ line) 
     rfl rfl
   exact ⟨R.1, rfl, R.2.1, R.2.2⟩
 
+theorem xlateAndClip_one {rb : RB} (hclip : ClipOK rb.lines rb.cols rb.clip) {line col : Int} {r : Clipped}
+    (h : xlateAndClip rb line col 1 = some r) :
+    r.line = line + rb.xlLine ∧ r.col = col + rb.xlCol ∧ r.cols = 1 ∧ 0 ≤ r.line ∧ r.line < rb.lines ∧
+    0 ≤ r.col ∧ r.col < rb.cols ∧ absClipRect rb.clip r.line r.col = true := by
+  obtain ⟨r1, r2, r3, r4, r5, r6, r7, r8⟩ := xlateAndClip_some hclip h
+  have a := (r8 r.col).1 ⟨by omega, by omega⟩
+  have hc1 : r.cols = 1 := by
+    apply Classical.byContradiction; intro x
+    have b := (r8 (r.col + 1)).1 ⟨by omega, by omega⟩
+    omega
+  exact ⟨r1, by omega, hc1, r2, r3, r4, by omega, a.2.2⟩
+
+/-- The shape shared by `put_char` and `linecell`: at most the one cell `(line + xl, col + xc)` changes. -/
+theorem refines_cell {rb rb' : RB} {a : AState} (wf : WF rb) (R : Refines rb a) (line col : Int)
+    (what : Int → Int → Content → Content)
+    (haux : rb'.aux = rb.aux) (hmd : ∀ L C, (rb'.cell L C).maskdepth = (rb.cell L C).maskdepth)
+    (hc : ∀ L C, absContent rb' L C =
+      if L = line + rb.xlLine ∧ C = col + rb.xlCol ∧ absClipRect rb.clip L C = true ∧ absMasked rb L C = false
+      then what line col (absContent rb L C) else absContent rb L C) :
+    Refines rb' (paint a (inRun line col 1) what) := by
+  refine refines_paint R haux hmd _ _ ?_
+  intro L C
+  rw [hc]
+  by_cases p : L = line + rb.xlLine ∧ C = col + rb.xlCol ∧ absClipRect rb.clip L C = true ∧ absMasked rb L C = false
+  · rw [if_pos p, if_pos]
+    · have e1 : L - rb.xlLine = line := by omega
+      have e2 : C - rb.xlCol = col := by omega
+      rw [e1, e2]
+    · simp only [Bool.and_eq_true, inRun_iff, Bool.not_eq_true']
+      exact ⟨⟨by omega, by omega, by omega⟩, p.2.2.1, p.2.2.2⟩
+  · rw [if_neg p, if_neg]
+    intro x
+    simp only [Bool.and_eq_true, inRun_iff, Bool.not_eq_true'] at x
+    exact p ⟨by omega, by omega, x.2.1, x.2.2⟩
+
+theorem charAt_refines {rb : RB} {a : AState} (wf : WF rb) (R : Refines rb a) (l c cp : Int) :
+    WF (RB.charAt rb l c cp) ∧ Refines (RB.charAt rb l c cp) (RBAbs.charAt a l c cp) := by
+  unfold RB.charAt RBAbs.charAt putChar
+  rw [R.pen]
+  cases hx : xlateAndClip rb l c 1 with
+  | none =>
+    refine ⟨wf, refines_cell wf R l c _ rfl (fun _ _ => rfl) ?_⟩
+    intro L C
+    rw [if_neg]
+    intro x
+    have := xlateAndClip_none hx C
+    rw [← x.1] at this
+    exact this ⟨by omega, by omega, x.2.2.1⟩
+  | some r =>
+    simp only
+    obtain ⟨r1, r2, r3, r4, r5, r6, r7, r8⟩ := xlateAndClip_one wf.clip hx
+    have hb : inBuf rb.lines rb.cols r.line r.col = true := (inBuf_iff _ _ _ _).2 ⟨r4, r5, r6, r7⟩
+    by_cases hm : (rb.cell r.line r.col).maskdepth > -1
+    · rw [if_pos hm]
+      refine ⟨wf, refines_cell wf R l c _ rfl (fun _ _ => rfl) ?_⟩
+      intro L C
+      rw [if_neg]
+      intro x
+      have := (absMasked_false_iff wf hb).1 (by rw [r1, r2, ← x.1, ← x.2.1]; exact x.2.2.2)
+      omega
+    · rw [if_neg hm, r3]
+      have hun : (rb.cell r.line r.col).maskdepth = -1 := by have := wf.maskLB r.line r.col; omega
+      obtain ⟨w, haux, hmd, hc, _⟩ := cellOp_spec wf r.line r.col r4 r5 r6 r7 hun
+        (fun c => { c with state := .char, pen := rb.pen, cp := cp }) (fun _ => by simp) (fun _ h => h) (fun _ => rfl)
+      refine ⟨w, refines_cell wf R l c _ haux hmd ?_⟩
+      intro L C
+      rw [hc]
+      by_cases p : L = r.line ∧ C = r.col
+      · rw [if_pos p, if_pos]
+        · rfl
+        · refine ⟨by omega, by omega, by rw [p.1, p.2]; exact r8, ?_⟩
+          rw [p.1, p.2]; exact (absMasked_false_iff wf hb).2 hun
+      · rw [if_neg p, if_neg]
+        intro x; exact p ⟨by omega, by omega⟩
+
+theorem char_refines {rb : RB} {a : AState} (wf : WF rb) (R : Refines rb a) (cp : Int) :
+    WF (RB.char rb cp) ∧ Refines (RB.char rb cp) (RBAbs.char a cp) :=
+  atCursor_refines wf R (fun r l c => putChar r l c cp) (fun a l c => RBAbs.charAt a l c cp) 1
+    (fun l c => charAt_refines wf R l c cp) (fun l c => putChar_aux rb l c cp)
+
 end Tickit.RB
